@@ -44,3 +44,20 @@ func VerifH03aMatcherCoversResolver() {
 	verifrt.Assert(!under || m, "protected-path-matched")
 	verifrt.Observe("m", m, under)
 }
+
+// VerifH03aTraversal: an adversarial first segment followed by a dot-dot step back into the
+// protected tree: the resolver lands under the base, so the matcher must match.
+func VerifH03aTraversal() {
+	n := verifrt.IntRange("seglen", 0, 3+verifrt.Tier())
+	seg := verifrt.String("seg", n)
+	for i := 0; i < n; i++ {
+		verifrt.Assume(zzIn(seg[i], "/.aA\\%:"))
+	}
+	p := "/" + seg + "/../a/x"
+	CaseSensitivePath = verifrt.Bool("casesensitive")
+	R := path.Clean("/" + p)
+	under := strings.HasPrefix(R, "/a/") || R == "/a"
+	m := Path(p).Matches("/a")
+	verifrt.Assert(!under || m, "protected-path-matched")
+	verifrt.Observe("m", m, under)
+}
